@@ -9,7 +9,7 @@ trap 'git -C /repo worktree remove --force $W >/dev/null 2>&1' EXIT
 cd /verif
 if [ "$MODE" = benign ]; then
   for pf in $(ls /verif/benign/*/patch*.diff | grep -E "$FILTER"); do
-    git -C $W checkout -q -- src
+    git -C $W checkout -q -- src; git -C $W clean -fdq src
     git -C $W apply $pf 2>/dev/null || { echo "APPLY-FAILED $pf"; continue; }
     r=$(bin/varianttest.sh $W 2>&1 | tail -5)
     echo "== $pf :: $(echo "$r" | tail -1)"
@@ -19,7 +19,7 @@ else
   for d in $(ls -d /verif/seeded/*/ | grep -E "$FILTER"); do
     p=$(python3 -c "import json;print(json.load(open('$d/meta.json'))['property'])")
     [ "$(basename $d)" = C05b-rsize-lt ] && p=C19
-    git -C $W checkout -q -- src
+    git -C $W checkout -q -- src; git -C $W clean -fdq src
     git -C $W apply $d/patch.diff 2>/dev/null || { echo "APPLY-FAILED $d"; continue; }
     r=$(bin/varianttest.sh $W $p 2>&1 | tail -3)
     if echo "$r" | grep -q "$p exit=1"; then echo "== $(basename $d) :: detected by $p"; else echo "== $(basename $d) :: NOT DETECTED by $p :: $(echo "$r" | head -1 | cut -c1-200)"; fi
